@@ -626,17 +626,18 @@ def declare(case, m, x, pieces):
     lo = np.array([(-np.inf if b[1] is None else b[1]) for b in case['bounds']])
     hi = np.array([(np.inf if b[2] is None else b[2]) for b in case['bounds']])
     bs = case.get('bound_style', 'array')
-    handles = {'bounds': [], 'lin': []}
+    handles = {'bounds': [], 'lin': [], 'cert': []}
+
+    def unit(j):
+        e = np.zeros(n)
+        e[j] = 1.0
+        return e
     if bs == 'rows':
         for j in range(n):
             if np.isfinite(lo[j]):
-                e = np.zeros(n)
-                e[j] = 1.0
-                m.st(e @ x >= lo[j])
+                handles['cert'].append({'kind': 'le', 'G': -unit(j)[None, :], 'h': np.array([-lo[j]]), 'c': m.st(unit(j) @ x >= lo[j])})
             if np.isfinite(hi[j]):
-                e = np.zeros(n)
-                e[j] = 1.0
-                m.st(e @ x <= hi[j])
+                handles['cert'].append({'kind': 'le', 'G': unit(j)[None, :], 'h': np.array([hi[j]]), 'c': m.st(unit(j) @ x <= hi[j])})
     else:
         for (var, start, size) in pieces:
             l, h = lo[start:start + size], hi[start:start + size]
@@ -645,15 +646,15 @@ def declare(case, m, x, pieces):
             if bs == 'array' and (np.all(np.isfinite(l)) or not np.any(np.isfinite(l))) and \
                     (np.all(np.isfinite(h)) or not np.any(np.isfinite(h))):
                 if np.any(np.isfinite(l)):
-                    handles['bounds'].append(('L', start, size, m.st(var >= l)))
+                    handles['cert'].append({'kind': 'lb', 'idx': list(range(start, start + size)), 'h': l, 'c': m.st(var >= l)})
                 if np.any(np.isfinite(h)):
-                    handles['bounds'].append(('U', start, size, m.st(var <= h)))
+                    handles['cert'].append({'kind': 'ub', 'idx': list(range(start, start + size)), 'h': h, 'c': m.st(var <= h)})
             else:
                 for j in range(size):
                     if np.isfinite(l[j]):
-                        m.st(var[j] >= float(l[j]))
+                        handles['cert'].append({'kind': 'lb', 'idx': [start + j], 'h': np.array([l[j]]), 'c': m.st(var[j] >= float(l[j]))})
                     if np.isfinite(h[j]):
-                        m.st(var[j] <= float(h[j]))
+                        handles['cert'].append({'kind': 'ub', 'idx': [start + j], 'h': np.array([h[j]]), 'c': m.st(var[j] <= float(h[j]))})
     for con in case['lin']:
         A, b = np.array(con['A'], dtype=float), np.array(con['b'], dtype=float)
         sty = con.get('style', 0)
@@ -665,7 +666,16 @@ def declare(case, m, x, pieces):
             e = {'le': -(A @ x) >= -b, 'ge': -(A @ x) <= -b, 'eq': b - A @ x == 0}[con['sense']]
         else:
             e = {'le': A @ x - b <= 0, 'ge': 0 <= A @ x - b, 'eq': 2 * (A @ x) == 2 * b}[con['sense']]
-        handles['lin'].append(m.st(e))
+        cobj = m.st(e)
+        handles['lin'].append(cobj)
+        # orientation of the row as written (>= read as <= of its negation; == as written)
+        if con['sense'] == 'le':
+            G, h = A, b
+        elif con['sense'] == 'ge':
+            G, h = -A, -b
+        else:
+            G, h = {0: (A, b), 1: (A, b), 2: (-A, -b), 3: (2 * A, 2 * b)}[sty]
+        handles['cert'].append({'kind': 'eq' if con['sense'] == 'eq' else 'le', 'G': G, 'h': h, 'c': cobj})
     for a in case['atoms']:
         m.st(atom_constraint(a, x))
     for c in case.get('cones', []):
